@@ -33,6 +33,7 @@ import (
 	"github.com/daeuniverse/dae/common/consts"
 	"github.com/daeuniverse/dae/config"
 	"github.com/daeuniverse/dae/component/dns"
+	"github.com/daeuniverse/dae/pkg/config_parser"
 	dnsmessage "github.com/miekg/dns"
 	"github.com/sirupsen/logrus"
 )
@@ -56,6 +57,14 @@ func c08B(b bool) string {
 type c08Fixed struct {
 	name string
 	ttl  int
+	lit  string // the way the number is written in the configuration ("" = decimal): 0x10, 017, 1_0, +7 ...
+}
+
+func (f c08Fixed) num() string {
+	if f.lit != "" {
+		return f.lit
+	}
+	return fmt.Sprint(f.ttl)
 }
 
 type c08Cfg struct {
@@ -80,7 +89,7 @@ func (c c08Cfg) fixedStr() string {
 func (c c08Cfg) fixedMap() map[string]int {
 	ks := make([]config.KeyableString, len(c.fixed))
 	for i, f := range c.fixed {
-		ks[i] = config.KeyableString(fmt.Sprintf("%s: %d", f.name, f.ttl))
+		ks[i] = config.KeyableString(fmt.Sprintf("%s: %s", f.name, f.num()))
 	}
 	m, err := ParseFixedDomainTtl(ks)
 	if err != nil {
@@ -229,35 +238,16 @@ func c08SleepUntil(t int64) {
 	}
 }
 
-// c08Records builds the answer / authority / additional sections of an upstream reply.  Only the
-// FIRST answer carries rttl; the others (and the other sections) carry a different TTL, as in CNAME
-// chains or glue records — the cache must not care.
-// c08PickOtherTTL: later records longer-lived (glue-like), shorter-lived (CNAME 3600 → A 30) or equal
-func c08PickOtherTTL(r *VRand, stats *VStats) {
-	switch r.Intn(3) {
-	case 0:
-		c08OtherTTL = func(rttl uint32) uint32 { return rttl*3 + 7 }
-		stats.Inc("reply.later_answers_longer_lived")
-	case 1:
-		c08OtherTTL = func(rttl uint32) uint32 { return rttl / 3 }
-		stats.Inc("reply.later_answers_shorter_lived")
-	default:
-		c08OtherTTL = func(rttl uint32) uint32 { return rttl }
-		stats.Inc("reply.all_answers_same_ttl")
+// c08Records builds the answer / authority / additional sections of an upstream reply: one answer
+// record per element of ttls, each with its OWN TTL (CNAME chains: 3600, 3600, 30 ...); the other
+// sections carry TTLs of their own as well (glue) — the cache must not care.
+func c08Records(fq string, qtype uint16, ttls []uint32, ans, ns int) (answers, nsec, extra []dnsmessage.RR) {
+	other := uint32(77)
+	if len(ttls) > 0 {
+		other = ttls[0]/2 + 9
 	}
-}
-
-// c08OtherTTL: TTL of the answer records after the first (set by the generator before a reply is built)
-var c08OtherTTL = func(rttl uint32) uint32 { return rttl*3 + 7 }
-
-func c08Records(fq string, qtype uint16, rttl uint32, ans, n, ns int) (answers, nsec, extra []dnsmessage.RR) {
-	other := c08OtherTTL(rttl)
-	for i := 0; i < n; i++ {
+	for i, ttl := range ttls {
 		id := ans + i
-		ttl := rttl
-		if i > 0 {
-			ttl = other
-		}
 		if qtype == dnsmessage.TypeAAAA {
 			ip := net.ParseIP("2001:db8::")
 			ip[14], ip[15] = byte(id>>8), byte(id)
@@ -280,6 +270,81 @@ func c08Records(fq string, qtype uint16, rttl uint32, ans, n, ns int) (answers, 
 	return
 }
 
+// c08Same: n answer records that all carry the same TTL
+func c08Same(n int, ttl uint32) []uint32 {
+	t := make([]uint32, n)
+	for i := range t {
+		t[i] = ttl
+	}
+	return t
+}
+
+func c08TTLsStr(ttls []uint32) string {
+	if len(ttls) == 0 {
+		return "-"
+	}
+	p := make([]string, len(ttls))
+	for i, t := range ttls {
+		p[i] = fmt.Sprint(t)
+	}
+	return strings.Join(p, ",")
+}
+
+// c08GenTTLs: the TTLs of the answer records of a generated reply.  The number of records crosses the
+// 8-record stack scratch of prepackResponseBeforeStore; the smallest TTL sits first, in the middle or
+// last (the entry must live as long as the shortest-lived record, wherever it is).
+func c08GenTTLs(r *VRand, stats *VStats, base uint32, n int) []uint32 {
+	ttls := c08Same(n, base)
+	stats.Inc(fmt.Sprintf("reply.answer_records=%s", map[bool]string{true: "9_or_more", false: fmt.Sprint(n)}[n >= 9]))
+	if n < 2 {
+		return ttls
+	}
+	longer := func(t uint32) uint32 {
+		if t > 4000000000 {
+			return t
+		}
+		return t*3 + 7 + uint32(r.Intn(50))
+	}
+	switch r.Intn(5) {
+	case 0:
+		stats.Inc("reply.all_answers_same_ttl")
+	case 1: // the first record is the shortest-lived
+		for i := 1; i < n; i++ {
+			ttls[i] = longer(base)
+		}
+		stats.Inc("reply.min_ttl_first")
+	case 2: // the last one is
+		for i := 0; i < n-1; i++ {
+			ttls[i] = longer(base)
+		}
+		stats.Inc("reply.min_ttl_last")
+	case 3: // one in the middle (or the second of two)
+		k := 1
+		if n > 2 {
+			k = r.Range(1, n-2)
+		}
+		for i := range ttls {
+			if i != k {
+				ttls[i] = longer(base)
+			}
+		}
+		if k == n-1 {
+			stats.Inc("reply.min_ttl_last")
+		} else {
+			stats.Inc("reply.min_ttl_middle")
+		}
+	default: // a descending chain: every record shorter-lived than the one before
+		for i := range ttls {
+			ttls[i] = base + uint32(n-1-i)*uint32(1+r.Intn(40))
+			if ttls[i] < base { // wrapped
+				ttls[i] = base
+			}
+		}
+		stats.Inc("reply.min_ttl_last")
+	}
+	return ttls
+}
+
 func c08Fqdn(host string) string {
 	return dnsmessage.CanonicalName(host)
 }
@@ -290,7 +355,7 @@ func (w *c08World) ins(t int64, key, host string, qtype uint16, ttl int, ans, n,
 	_, ipErr := netip.ParseAddr(strings.TrimSuffix(host, "."))
 	op := fmt.Sprintf("ins t=%d key=%s host=%s qtype=%d ttl=%d ans=%d n=%d ns=%d ip=%s cb=%s", t, c08Hex(key), c08Hex(host), qtype, ttl, ans, n, ns, c08B(ipErr == nil), c08B(c08CbFail.Load()))
 	out := VRecover(func() string {
-		answers, nsec, extra := c08Records(c08Fqdn(host), qtype, 77, ans, n, ns)
+		answers, nsec, extra := c08Records(c08Fqdn(host), qtype, c08Same(n, 77), ans, ns)
 		var err error
 		if key == "" {
 			err = w.c.UpdateDnsCacheTtl(host, qtype, answers, nsec, extra, ttl)
@@ -308,18 +373,18 @@ func (w *c08World) ins(t int64, key, host string, qtype uint16, ttl int, ans, n,
 	w.st.Emit(op, out)
 }
 
-// insn: NormalizeAndCacheDnsResp_ on an upstream reply (the call dialSend makes)
+// insn: NormalizeAndCacheDnsResp_ on an upstream reply (the call dialSend makes); n records, one TTL
 func (w *c08World) insn(t int64, key, host string, qtype uint16, rttl uint32, ans, n, ns, rcode int) {
-	w.insnMsg(t, key, host, qtype, rttl, ans, n, ns, rcode, true, 1, dnsmessage.ClassINET)
+	w.insnMsg(t, key, host, qtype, c08Same(n, rttl), ans, ns, rcode, true, 1, dnsmessage.ClassINET)
 }
 
-// insnMsg: resp = the header's QR bit, nq = number of questions (0 or 1)
-func (w *c08World) insnMsg(t int64, key, host string, qtype uint16, rttl uint32, ans, n, ns, rcode int, resp bool, nq int, qclass uint16) {
+// insnMsg: resp = the header's QR bit, nq = number of questions (0 or 1), ttls = the answer records' TTLs
+func (w *c08World) insnMsg(t int64, key, host string, qtype uint16, ttls []uint32, ans, ns, rcode int, resp bool, nq int, qclass uint16) {
 	w.sleepUntil(t)
 	_, ipErr := netip.ParseAddr(strings.TrimSuffix(host, "."))
-	op := fmt.Sprintf("insn t=%d key=%s host=%s qtype=%d rttl=%d ans=%d n=%d ns=%d rcode=%d ip=%s resp=%s nq=%d", t, c08Hex(key), c08Hex(host), qtype, rttl, ans, n, ns, rcode, c08B(ipErr == nil), c08B(resp), nq) + fmt.Sprintf(" class=%d ottl=%d", qclass, c08OtherTTL(rttl))
+	op := fmt.Sprintf("insn t=%d key=%s host=%s qtype=%d ttls=%s ans=%d ns=%d rcode=%d ip=%s resp=%s nq=%d class=%d", t, c08Hex(key), c08Hex(host), qtype, c08TTLsStr(ttls), ans, ns, rcode, c08B(ipErr == nil), c08B(resp), nq, qclass)
 	out := VRecover(func() string {
-		answers, nsec, extra := c08Records(c08Fqdn(host), qtype, rttl, ans, n, ns)
+		answers, nsec, extra := c08Records(c08Fqdn(host), qtype, ttls, ans, ns)
 		msg := &dnsmessage.Msg{
 			MsgHdr: dnsmessage.MsgHdr{Id: 4242, Response: resp, Rcode: rcode, RecursionDesired: true, RecursionAvailable: true},
 			Answer: answers, Ns: nsec, Extra: extra,
@@ -531,7 +596,7 @@ func (w *c08World) reconf(cfg c08Cfg) {
 func (c c08Cfg) dnsSection() *config.Dns {
 	d := &config.Dns{OptimisticCache: c.opt, OptimisticCacheTtl: c.stale, MaxCacheSize: c.max}
 	for _, f := range c.fixed {
-		d.FixedDomainTtl = append(d.FixedDomainTtl, config.KeyableString(fmt.Sprintf("%s: %d", f.name, f.ttl)))
+		d.FixedDomainTtl = append(d.FixedDomainTtl, config.KeyableString(fmt.Sprintf("%s:%s", f.name, f.num())))
 	}
 	return d
 }
@@ -781,14 +846,17 @@ func c08RandCfg(r *VRand, stats *VStats) c08Cfg {
 	cfg := c08Cfg{opt: r.Bool()}
 	cfg.stale = []int{0, 0, 1, 2, 5, 60, 60, 300, 60, 5, 1, 2}[r.Intn(12)]
 	cfg.max = []int{0, 0, 0, 1, 2, 3, 5, 0, 2, 3, -1}[r.Intn(11)]
-	switch r.Intn(4) {
+	switch r.Intn(5) {
 	case 0:
 	case 1:
-		cfg.fixed = []c08Fixed{{"a.test", 10}}
+		cfg.fixed = []c08Fixed{{name: "a.test", ttl: 10}}
 	case 2:
-		cfg.fixed = []c08Fixed{{"a.test.", 0}, {"ddns.example.org", 3600}}
+		cfg.fixed = []c08Fixed{{name: "a.test.", ttl: 0}, {name: "ddns.example.org", ttl: 3600}}
 	case 3:
-		cfg.fixed = []c08Fixed{{"b.test", 1}, {"DDNS.example.org", 5}, {"T.", 30}, {"B.Test", 2}, {"www.x-y.example.com", -3}}
+		cfg.fixed = []c08Fixed{{name: "b.test", ttl: 1}, {name: "DDNS.example.org", ttl: 5}, {name: "T.", ttl: 30}, {name: "B.Test", ttl: 2}, {name: "www.x-y.example.com", ttl: -3}}
+	case 4: // the number written the ways strconv.ParseInt(…, 0, …) reads them
+		cfg.fixed = []c08Fixed{{"a.test", 15, "017"}, {"ddns.example.org", 16, "0x10"}, {"t", 5, "0b101"}, {"b.test", 7, "+7"}, {"www.x-y.example.com", 10, "1_0"}, {"A.Test", 31, "0X1f"}}
+		stats.Inc("cfg.fixed_ttl_written_in_another_base")
 	}
 	stats.Inc(fmt.Sprintf("cfg.opt=%s,stale%s,max%s,fixed%s", c08B(cfg.opt), c08Cls(cfg.stale), c08Cls(cfg.max), c08Cls(len(cfg.fixed))))
 	return cfg
@@ -982,7 +1050,11 @@ func c08History(t *testing.T, r *VRand, st *VStream, stats *VStats, log *logrus.
 				var ttl int64
 				host := name
 				if r.Bool() {
-					rttl := []uint32{0, 1, 2, 5, 14, 15, 16, 17, 18, 30, 31, 32, 33, 47, 60, 120, 300, 3600, 86400, 40000000}[r.Intn(20)]
+					rttl := []uint32{0, 1, 2, 5, 14, 15, 16, 17, 18, 30, 31, 32, 33, 47, 60, 120, 300, 3600, 86400, 40000000,
+						31535999, 31536000, 31536001, 4294967295}[r.Intn(24)]
+					if rttl >= 31535999 && rttl <= 31536001 || rttl == 4294967295 {
+						stats.Inc("insert.ttl_at_one_year_clamp_or_uint32_max")
+					}
 					rcode, resp, nq := 0, true, 1
 					switch r.Intn(40) {
 					case 0, 1:
@@ -999,14 +1071,17 @@ func c08History(t *testing.T, r *VRand, st *VStream, stats *VStats, log *logrus.
 						qclass = []uint16{3, 4, 255}[r.Intn(3)] // a reply to a CH / HS / ANY-class question
 						stats.Inc("insert.reply_class_not_IN")
 					}
-					c08PickOtherTTL(r, stats)
-					w.insnMsg(now, key, host, sl.qtype, rttl, ansCounter, n, ns, rcode, resp, nq, qclass)
+					if r.Chance(0.12) {
+						n = []int{4, 5, 8, 9, 12}[r.Intn(5)]
+					}
+					ttls := c08GenTTLs(r, stats, rttl, n)
+					w.insnMsg(now, key, host, sl.qtype, ttls, ansCounter, ns, rcode, resp, nq, qclass)
 					stats.Inc("op.insn")
 					if rcode != 0 || !resp || nq == 0 || qclass != dnsmessage.ClassINET {
 						stats.Inc("insert.not_cacheable_reply")
 						continue
 					}
-					ttl = int64(rttl)
+					ttl = int64(rttl) // c08GenTTLs keeps `rttl` as the smallest
 					if n == 0 {
 						ttl = 120
 					}
@@ -1117,7 +1192,7 @@ func c08History(t *testing.T, r *VRand, st *VStream, stats *VStats, log *logrus.
 func c08Directed(t *testing.T, st *VStream, stats *VStats, log *logrus.Logger) {
 	for _, cfg := range []c08Cfg{
 		{opt: true, stale: 60}, {opt: true, stale: 0, max: 3}, {opt: false, stale: 60}, {opt: true, stale: 0},
-		{opt: false, stale: 0, max: 2}, {opt: true, stale: 2, max: 2, fixed: []c08Fixed{{"a.test", 3}}},
+		{opt: false, stale: 0, max: 2}, {opt: true, stale: 2, max: 2, fixed: []c08Fixed{{name: "a.test", ttl: 3}}},
 	} {
 		for _, ttl := range []int{1, 20, 0} {
 			synctest.Test(t, func(t *testing.T) {
@@ -1180,7 +1255,7 @@ func c08Findings(t *testing.T, st *VStream, stats *VStats, log *logrus.Logger) {
 	synctest.Test(t, func(t *testing.T) {
 		w := &c08World{log: log, st: st, stats: stats}
 		st.Emit("note fixed-ttl-case begin", "note")
-		w.cfg(c08Cfg{opt: false, stale: 60, fixed: []c08Fixed{{"ddns.example.org", 10}}})
+		w.cfg(c08Cfg{opt: false, stale: 60, fixed: []c08Fixed{{name: "ddns.example.org", ttl: 10}}})
 		defer func() { _ = w.c.Close() }()
 		t0 := time.Now().UnixNano()
 		for i, qn := range []string{"ddns.example.org.", "DDNS.Example.org."} {
@@ -1213,7 +1288,7 @@ func c08Findings(t *testing.T, st *VStream, stats *VStats, log *logrus.Logger) {
 	synctest.Test(t, func(t *testing.T) {
 		w := &c08World{log: log, st: st, stats: stats}
 		st.Emit("note reuse-reload-config begin", "note")
-		cfg := c08Cfg{opt: true, stale: 300, max: 50, fixed: []c08Fixed{{"ddns.example.org", 10}}}
+		cfg := c08Cfg{opt: true, stale: 300, max: 50, fixed: []c08Fixed{{name: "ddns.example.org", ttl: 10}}}
 		w.cpStart(cfg)
 		defer func() { _ = w.c.Close() }()
 		t0 := time.Now().UnixNano()
@@ -1231,11 +1306,8 @@ func c08Findings(t *testing.T, st *VStream, stats *VStats, log *logrus.Logger) {
 		w.cfg(c08Cfg{opt: false, stale: 60})
 		defer func() { _ = w.c.Close() }()
 		t0 := time.Now().UnixNano()
-		saved := c08OtherTTL
-		c08OtherTTL = func(uint32) uint32 { return 30 }
 		ka := w.realKey("www.example.com", 1, r0)
-		w.insn(t0, ka, "www.example.com.", 1, 3600, 40, 2, 0, 0)
-		c08OtherTTL = saved
+		w.insnMsg(t0, ka, "www.example.com.", 1, []uint32{3600, 30}, 40, 0, 0, true, 1, dnsmessage.ClassINET)
 		w.look(t0+29*c08Sec, ka, "www.example.com", 1, false)  // both records alive
 		w.look(t0+600*c08Sec, ka, "www.example.com", 1, false) // the second record's TTL ran out 570 s ago
 		st.Emit("note shortest-answer-ttl end", "note")
@@ -1244,7 +1316,7 @@ func c08Findings(t *testing.T, st *VStream, stats *VStats, log *logrus.Logger) {
 	synctest.Test(t, func(t *testing.T) {
 		w := &c08World{log: log, st: st, stats: stats}
 		st.Emit("note fixed-ttl-trailing-dot begin", "note")
-		w.cfg(c08Cfg{opt: false, stale: 60, fixed: []c08Fixed{{"ddns.example.org.", 10}}})
+		w.cfg(c08Cfg{opt: false, stale: 60, fixed: []c08Fixed{{name: "ddns.example.org.", ttl: 10}}})
 		defer func() { _ = w.c.Close() }()
 		t0 := time.Now().UnixNano()
 		ka := w.realKey("ddns.example.org", 1, r0)
@@ -1345,7 +1417,7 @@ func c08RaceStream(t *testing.T, st *VStream, stats *VStats, log *logrus.Logger,
 	budget := time.Duration(8+rounds/200) * time.Second
 	done := 0
 	out := VRecover(func() string {
-		answers, _, _ := c08Records(c08Fqdn(name), 1, 77, 77, 1, 0)
+		answers, _, _ := c08Records(c08Fqdn(name), 1, c08Same(1, 77), 77, 0)
 		if err := w.c.UpdateDnsCacheTtlWithKey(key, name, 1, answers, nil, nil, -1000); err != nil {
 			return "err:" + err.Error()
 		}
@@ -1379,6 +1451,7 @@ func c08RaceStream(t *testing.T, st *VStream, stats *VStats, log *logrus.Logger,
 			}()
 		}
 		deadline := time.Now().Add(budget)
+		hard := deadline.Add(3 * budget) // a machine under heavy load gets more time to reach the floor of the check
 		stuck := false
 	arming:
 		for done < arms {
@@ -1386,13 +1459,13 @@ func c08RaceStream(t *testing.T, st *VStream, stats *VStats, log *logrus.Logger,
 			entry.MarkRefreshed()
 			for spins := 0; grants.Load() == before; spins++ { // somebody takes the latch
 				runtime.Gosched()
-				if spins%1024 == 1023 && time.Now().After(deadline) {
+				if spins%1024 == 1023 && time.Now().After(hard) {
 					stuck = grants.Load() == before
 					break arming
 				}
 			}
 			done++
-			if done%4096 == 0 && time.Now().After(deadline) {
+			if done%4096 == 0 && time.Now().After(deadline) && (done >= 30000 || time.Now().After(hard)) {
 				break
 			}
 		}
@@ -1415,9 +1488,177 @@ func c08RaceStream(t *testing.T, st *VStream, stats *VStats, log *logrus.Logger,
 	stats.Add("race.hammer_goroutines", loopers)
 }
 
+
+// c08EvictHammer: eviction against insertion, real parallelism.  One key; a writer stores, in turn,
+// an answer that expired 1000 s ago (optimistic caching off: the next lookup / janitor pass evicts it)
+// and a fresh answer (TTL 1000 s), again and again, while several goroutines look the key up in a tight
+// loop and one runs the janitor body in a loop.  An eviction is decided on the object that was loaded
+// (`CompareAndDelete(key, loaded)`), so whatever the interleaving the fresh answer just stored is never
+// the one that disappears: after every store of a fresh answer the writer must find exactly that answer
+// (theorem eviction_removes_only_the_expired_object_it_examined).  Nothing depends on the wall clock
+// (margins of 1000 s), the loop is bounded by a time budget, the result line holds no instants.
+func c08EvictHammer(st *VStream, stats *VStats, log *logrus.Logger, rounds int) {
+	loopers := min(4, runtime.GOMAXPROCS(0)-2, runtime.NumCPU()-2)
+	if loopers < 1 {
+		stats.Inc("race.evict_hammer_skipped_fewer_than_3_cpus")
+		st.Emit("evicthammer skipped=1", "evicthammer lost_fresh_answers=0")
+		return
+	}
+	dnsCacheJanitorInterval = 24 * 365 * 50 * time.Hour
+	c, err := NewDnsController(nil, c08Option(c08Cfg{opt: false, stale: 60}, log))
+	if err != nil {
+		panic(err)
+	}
+	defer func() { _ = c.Close() }()
+	name := "evict.test"
+	key := c.cacheKey(name, 1)
+	done := 0
+	out := VRecover(func() string {
+		var stop atomic.Bool
+		var wg sync.WaitGroup
+		for g := 0; g < loopers; g++ {
+			wg.Add(1)
+			go func() {
+				defer wg.Done()
+				msg := new(dnsmessage.Msg)
+				msg.SetQuestion(dnsmessage.Fqdn(name), 1)
+				for n := 0; !stop.Load(); n++ {
+					c.LookupDnsRespCache_(msg, key, false)
+					if n%64 == 0 {
+						runtime.Gosched()
+					}
+				}
+			}()
+		}
+		wg.Add(1)
+		go func() {
+			defer wg.Done()
+			for n := 0; !stop.Load(); n++ {
+				c.evictExpiredDnsCache(time.Now())
+				runtime.Gosched()
+			}
+		}()
+		lost := 0
+		deadline := time.Now().Add(time.Duration(6+rounds/400) * time.Second)
+		holds := func(id int) bool {
+			v, ok := c.dnsCache.Load(key)
+			if !ok {
+				return false
+			}
+			e := v.(*DnsCache)
+			if len(e.Answer) != 1 {
+				return false
+			}
+			ip := e.Answer[0].(*dnsmessage.A).A.To4()
+			return int(ip[2])<<8|int(ip[3]) == id
+		}
+		for done < rounds {
+			id := done % 60000
+			old, _, _ := c08Records(c08Fqdn(name), 1, c08Same(1, 77), 60001, 0)
+			if err := c.UpdateDnsCacheTtlWithKey(key, name, 1, old, nil, nil, -1000); err != nil {
+				return "err:" + err.Error()
+			}
+			fresh, _, _ := c08Records(c08Fqdn(name), 1, c08Same(1, 77), id, 0)
+			if err := c.UpdateDnsCacheTtlWithKey(key, name, 1, fresh, nil, nil, 1000); err != nil {
+				return "err:" + err.Error()
+			}
+			ok := true
+			for k := 0; k < 6 && ok; k++ { // an eviction decided on the old object may land a little later
+				ok = holds(id)
+				runtime.Gosched()
+			}
+			if !ok {
+				lost++
+			}
+			done++
+			if done%512 == 0 && time.Now().After(deadline) {
+				break
+			}
+		}
+		stop.Store(true)
+		wg.Wait()
+		return fmt.Sprintf("evicthammer lost_fresh_answers=%d", lost)
+	})
+	st.Emit("evicthammer skipped=0", out)
+	stats.Add("race.fresh_answers_stored_under_eviction_fire", done)
+	stats.Add("race.evict_hammer_goroutines", loopers+1)
+}
+
+// c08TornPairProbe MEASURES (it does not judge) how often the lock-free fast path of
+// GetPackedResponseWithApproximateTTL pairs the bytes of the previous pre-pack with the TTL value of the
+// next one: `packedResponse` and `packedResponseTTL` are two atomics, the fast path loads the pointer
+// first and the TTL second, a re-pack stores pointer then TTL in between.  The function takes `now` as
+// a parameter, so no clock is involved: all goroutines call it with the same scripted `now`, which
+// jumps by an hour per trial (remaining lifetime falls by 3600 s, far beyond the 15 s slack, so exactly
+// one of them re-packs).  A returned answer whose TTL exceeds remaining+15 is a torn pair.  Documented
+// observation of the design note (not an alarm): the count goes into the evidence.
+func c08TornPairProbe(st *VStream, stats *VStats, trials int) {
+	loopers := min(5, runtime.GOMAXPROCS(0)-1, runtime.NumCPU()-1)
+	if loopers < 2 {
+		stats.Inc("race.torn_probe_skipped_fewer_than_3_cpus")
+		return
+	}
+	const qname = "torn.test."
+	t0 := time.Unix(1000000000, 0)
+	life := int64(trials+10) * 3600
+	answers, _, _ := c08Records(qname, 1, c08Same(1, 0), 7, 0)
+	e := &DnsCache{Answer: answers, Deadline: t0.Add(time.Duration(life) * time.Second), OriginalDeadline: t0.Add(time.Duration(life) * time.Second)}
+	if err := e.prepackResponseBeforeStore(qname, 1, uint32(life), t0); err != nil {
+		return
+	}
+	// where the TTL of the (single) answer record sits in the packed bytes
+	b0 := e.GetPackedResponse()
+	off := 12 + len(qname) + 1 + 4 + 2 + 2 + 2
+	if len(b0) < off+4 || uint32(b0[off])<<24|uint32(b0[off+1])<<16|uint32(b0[off+2])<<8|uint32(b0[off+3]) != uint32(life) {
+		stats.Inc("race.torn_probe_offset_unknown")
+		return
+	}
+	var cur atomic.Int64 // the scripted now (unix seconds)
+	cur.Store(t0.Unix())
+	var stop atomic.Bool
+	var torn, calls atomic.Int64
+	var wg sync.WaitGroup
+	for g := 0; g < loopers; g++ {
+		wg.Add(1)
+		go func() {
+			defer wg.Done()
+			for n := 0; !stop.Load(); n++ {
+				sec := cur.Load()
+				b := e.GetPackedResponseWithApproximateTTL(qname, 1, time.Unix(sec, 0))
+				if len(b) >= off+4 {
+					shown := int64(uint32(b[off])<<24 | uint32(b[off+1])<<16 | uint32(b[off+2])<<8 | uint32(b[off+3]))
+					if left := t0.Unix() + life - sec; shown > left+15 {
+						torn.Add(1)
+					}
+				}
+				calls.Add(1)
+				if n%256 == 0 {
+					runtime.Gosched()
+				}
+			}
+		}()
+	}
+	deadline := time.Now().Add(4 * time.Second)
+	done := 0
+	for ; done < trials && time.Now().Before(deadline); done++ {
+		cur.Add(3600)
+		for k := 0; k < 20; k++ {
+			runtime.Gosched()
+		}
+	}
+	stop.Store(true)
+	wg.Wait()
+	stats.Add("race.torn_probe_trials", done)
+	stats.Add("race.torn_probe_calls", int(calls.Load()))
+	stats.Add("race.torn_probe_torn_pairs_observed", int(torn.Load()))
+}
+
 // ---------------------------------------------------------------- the request path (HandleWithResponseWriter_)
 
-type c08Writer struct{ msg *dnsmessage.Msg }
+type c08Writer struct {
+	msg  *dnsmessage.Msg
+	fail bool // the client connection is gone: WriteMsg returns an error
+}
 
 func (w *c08Writer) LocalAddr() net.Addr       { return nil }
 func (w *c08Writer) RemoteAddr() net.Addr      { return nil }
@@ -1427,215 +1668,548 @@ func (w *c08Writer) Hijack()                   {}
 func (w *c08Writer) Close() error              { return nil }
 func (w *c08Writer) Write([]byte) (int, error) { return 0, nil }
 func (w *c08Writer) WriteMsg(m *dnsmessage.Msg) error {
+	if w.fail {
+		return fmt.Errorf("write to client failed")
+	}
 	w.msg = m.Copy()
 	return nil
 }
 
-type c08Upstream struct {
-	calls                atomic.Int64
-	rttl                 uint32
-	ans, n, ns, rcode    int
+// c08AskSpec scripts what the upstream side does with ONE request (found by the DNS message id, which
+// the harness makes unique and equal to the client's source port).
+type c08AskSpec struct {
+	ttls        []uint32
+	ans, ns     int
+	rcode       int
+	failHop     int  // the k-th upstream exchange of this request fails (0 = none)
+	wrongQ      bool // ... by answering another question than the one asked (instead of an error)
+	chooserFail bool // no dialer can be chosen: the request fails before anything is sent
 }
 
-func (u *c08Upstream) ForwardDNS(ctx context.Context, data []byte) (*dnsmessage.Msg, error) {
-	u.calls.Add(1)
-	time.Sleep(time.Second) // the upstream round trip (virtual time)
+type c08AskNet struct {
+	mu    sync.Mutex
+	calls map[uint16]int
+	spec  map[uint16]*c08AskSpec
+}
+
+func (n *c08AskNet) script(id uint16, s *c08AskSpec) {
+	n.mu.Lock()
+	n.spec[id] = s
+	n.mu.Unlock()
+}
+
+func (n *c08AskNet) callsOf(ids []uint16) int {
+	n.mu.Lock()
+	defer n.mu.Unlock()
+	c := 0
+	for _, id := range ids {
+		c += n.calls[id]
+	}
+	return c
+}
+
+// the upstreams of the request-path histories, by Upstream.String(): the number is added to the answer
+// id, so a reply tells which upstream it came from
+var c08UpNo = map[string]int{
+	"udp://8.8.8.8:53": 0, "udp://8.8.8.8:5353": 1, "udp://[2001:4860:4860::8888]:53": 2,
+	"udp://9.9.9.9:53": 3, "https://1.1.1.1:443/dns-query": 4,
+}
+
+type c08Fwd struct {
+	net  *c08AskNet
+	upNo int
+}
+
+func (f *c08Fwd) ForwardDNS(ctx context.Context, data []byte) (*dnsmessage.Msg, error) {
 	var q dnsmessage.Msg
 	if err := q.Unpack(data); err != nil {
 		return nil, err
 	}
+	f.net.mu.Lock()
+	f.net.calls[q.Id]++
+	hop := f.net.calls[q.Id]
+	spec := f.net.spec[q.Id]
+	f.net.mu.Unlock()
+	time.Sleep(time.Second) // the upstream round trip (virtual time)
+	if spec == nil {
+		return nil, fmt.Errorf("unscripted request id %d", q.Id)
+	}
 	m := new(dnsmessage.Msg)
 	m.SetReply(&q)
-	m.Rcode = u.rcode
+	if spec.failHop == hop {
+		if !spec.wrongQ {
+			return nil, fmt.Errorf("upstream exchange failed")
+		}
+		m.Question[0].Name = "other." + m.Question[0].Name // an answer to a question nobody asked
+	}
+	m.Rcode = spec.rcode
 	m.RecursionAvailable = true
 	m.Authoritative = true // marks "this is the upstream's own message" (replies packed by the cache never carry AA)
-	m.Answer, m.Ns, m.Extra = c08Records(dnsmessage.CanonicalName(q.Question[0].Name), q.Question[0].Qtype, u.rttl, u.ans, u.n, u.ns)
+	m.Answer, m.Ns, m.Extra = c08Records(dnsmessage.CanonicalName(q.Question[0].Name), q.Question[0].Qtype, spec.ttls, spec.ans+f.upNo, spec.ns)
 	return m, nil
 }
-func (u *c08Upstream) Close() error { return nil }
+func (f *c08Fwd) Close() error { return nil }
 
-// c08AskHistory drives whole requests through HandleWithResponseWriter_ (as-is route, one resolver
-// address) against a scripted upstream that takes 1 s of virtual time: key derivation at the call
-// site, first lookup, `go backgroundRefresh` (the real one: dialSend → NormalizeAndCacheDnsResp_ →
-// clean-up), singleflight + the post-insert lookup.  Observed: latency, number of upstream calls,
-// whether the reply came from the cache, answer id / count / TTL.
+// dnsText: the dns{} section as the user writes it; `gen` selects where *.flip.test is routed
+// (0: upstream u1, 1: reject, 2: as-is)
+func (c c08Cfg) dnsText(gen int) string {
+	var b strings.Builder
+	b.WriteString("global {}\nrouting { fallback: direct }\ndns {\n")
+	fmt.Fprintf(&b, "  optimistic_cache: %v\n  optimistic_cache_ttl: %d\n  max_cache_size: %d\n", c.opt, c.stale, c.max)
+	if len(c.fixed) > 0 {
+		b.WriteString("  fixed_domain_ttl {\n")
+		for _, f := range c.fixed {
+			fmt.Fprintf(&b, "    %s: %s\n", f.name, f.num())
+		}
+		b.WriteString("  }\n")
+	}
+	b.WriteString("  upstream {\n    u1: 'udp://9.9.9.9:53'\n    u2: 'https://1.1.1.1:443/dns-query'\n  }\n")
+	b.WriteString("  routing {\n    request {\n      qname(suffix: rej.test) -> reject\n      qname(suffix: up1.test) -> u1\n      qname(suffix: up2.test) -> u2\n      qname(suffix: redial.test) -> u1\n")
+	switch gen {
+	case 0:
+		b.WriteString("      qname(suffix: flip.test) -> u1\n")
+	case 1:
+		b.WriteString("      qname(suffix: flip.test) -> reject\n")
+	}
+	b.WriteString("      fallback: asis\n    }\n    response {\n      upstream(u1) && qname(suffix: redial.test) -> u2\n      qname(suffix: rrej.test) -> reject\n      fallback: accept\n    }\n  }\n}\n")
+	return b.String()
+}
+
+// c08IntendedRoute: where the dns{} text above sends a question (the harness's statement of the
+// configuration it wrote; request routing itself is not C08's matter).  finalUp = Upstream.String() of
+// the upstream whose reply is used, hops = upstream exchanges, respReject = response routing drops the
+// answer records.
+func c08IntendedRoute(name string, gen int, dst netip.AddrPort) (kind, detail, finalUp string, hops int, respReject bool) {
+	n := strings.ToLower(strings.TrimSuffix(name, "."))
+	has := func(suf string) bool { return n == suf || strings.HasSuffix(n, "."+suf) }
+	const u1, u2 = "udp://9.9.9.9:53", "https://1.1.1.1:443/dns-query"
+	asis := func() (string, string, string, int, bool) {
+		return "asisdst", dst.String(), "udp://" + dst.String(), 1, has("rrej.test")
+	}
+	switch {
+	case has("rej.test"):
+		return "reject", "", "", 0, false
+	case has("up1.test"):
+		return "up", u1, u1, 1, false
+	case has("up2.test"):
+		return "up", u2, u2, 1, false
+	case has("redial.test"):
+		return "up", u1, u2, 2, false
+	case has("flip.test"):
+		switch gen {
+		case 0:
+			return "up", u1, u1, 1, false
+		case 1:
+			return "reject", "", "", 0, false
+		}
+	}
+	return asis()
+}
+
+var c08AskNames = []string{"a.test", "ddns.example.org", "b.up1.test", "c.up2.test", "d.redial.test", "e.rrej.test", "f.rej.test", "g.flip.test", "g.flip.test"}
+
+// c08AskHistory drives whole requests through HandleWithResponseWriter_.  The dns{} section enters as
+// TEXT (config parser → config.New → the statements of NewControlPlane → dnsControllerOption →
+// NewDnsController, request/response routing built by dns.New from the same text); upstreams are
+// scripted and take 1 s of virtual time per exchange.  Routes: as-is to three resolver addresses (two on
+// one IP), two configured upstreams, reject, response routing that re-dials another upstream or drops
+// the answers; a name whose route changes with a reload (upstream → reject → as-is).  Faults: the
+// exchange fails / answers another question (at the first or at the re-dial hop), no dialer can be
+// chosen, the client is gone when the reply is written.  Simultaneous identical requests (singleflight)
+// and simultaneous requests that differ only in the resolver address (must not be coalesced).
+// Observed: latency, upstream exchanges of this request, whether the reply came from the cache, answer
+// id (tells the upstream) / count / TTL.
 func c08AskHistory(t *testing.T, r *VRand, st *VStream, stats *VStats, log *logrus.Logger, nOps int) {
 	synctest.Test(t, func(t *testing.T) {
 		originalFactory := dnsForwarderFactory
 		defer func() { dnsForwarderFactory = originalFactory }()
-		up := &c08Upstream{}
-		dnsForwarderFactory = func(*dns.Upstream, dialArgument, *logrus.Logger) (DnsForwarder, error) { return up, nil }
-		routing, err := dns.New(&config.Dns{Routing: config.DnsRouting{
-			Request:  config.DnsRequestRouting{Fallback: "asis"},
-			Response: config.DnsResponseRouting{Fallback: "accept"},
-		}}, &dns.NewOption{Logger: log, UpstreamReadyCallback: func(*dns.Upstream) error { return nil }})
-		if err != nil {
-			panic(err)
+		anet := &c08AskNet{calls: map[uint16]int{}, spec: map[uint16]*c08AskSpec{}}
+		dnsForwarderFactory = func(up *dns.Upstream, _ dialArgument, _ *logrus.Logger) (DnsForwarder, error) {
+			no, ok := c08UpNo[up.String()]
+			if !ok {
+				return nil, fmt.Errorf("unexpected upstream %s", up.String())
+			}
+			return &c08Fwd{net: anet, upNo: no}, nil
+		}
+		chooser := func(ctx context.Context, req *udpRequest, upstream *dns.Upstream) (*dialArgument, error) {
+			anet.mu.Lock()
+			spec := anet.spec[req.realSrc.Port()]
+			anet.mu.Unlock()
+			if spec != nil && spec.chooserFail {
+				return nil, fmt.Errorf("no alive dialer")
+			}
+			target := req.realDst
+			if upstream != nil && upstream.Ip46 != nil && upstream.Ip4.IsValid() {
+				target = netip.AddrPortFrom(upstream.Ip4, upstream.Port)
+			}
+			return &dialArgument{l4proto: consts.L4ProtoStr_UDP, ipversion: consts.IpVersionStr_4, bestTarget: target}, nil
 		}
 		w := &c08World{log: log, st: st, stats: stats}
 		cfg := c08RandCfg(r, stats)
-		dnsCacheJanitorInterval = 24 * 365 * 50 * time.Hour
-		opt := c08Option(cfg, log)
-		opt.BestDialerChooser = func(ctx context.Context, req *udpRequest, upstream *dns.Upstream) (*dialArgument, error) {
-			return &dialArgument{l4proto: consts.L4ProtoStr_UDP, ipversion: consts.IpVersionStr_4, bestTarget: req.realDst}, nil
+		if len(cfg.fixed) > 0 {
+			cfg.fixed = append(cfg.fixed, c08Fixed{name: "b.up1.test", ttl: 7}, c08Fixed{name: "G.Flip.Test.", ttl: 20, lit: "0o24"})
 		}
-		out := VRecover(func() string {
+		dnsCacheJanitorInterval = 24 * 365 * 50 * time.Hour
+		gen := r.Intn(3)
+		// build: text → config → (routing, option) → controller
+		build := func() (*DnsController, string) {
+			sections, err := config_parser.Parse(cfg.dnsText(gen))
+			if err != nil {
+				return nil, "err:config text: " + err.Error()
+			}
+			conf, err := config.New(sections)
+			if err != nil {
+				return nil, "err:config: " + err.Error()
+			}
+			routing, err := dns.New(&conf.Dns, &dns.NewOption{Logger: log, UpstreamReadyCallback: func(*dns.Upstream) error { return nil }})
+			if err != nil {
+				return nil, "err:dns routing: " + err.Error()
+			}
+			plane := &ControlPlane{log: log}
+			plane.ctx, plane.cancel = context.WithCancel(context.Background())
+			opt, err := c08ProductionRecordDNS(plane, &conf.Dns, routing)
+			if err != nil {
+				return nil, "err:" + err.Error()
+			}
 			c, err := NewDnsController(routing, opt)
 			if err != nil {
-				return "err:" + err.Error()
+				return nil, "err:" + err.Error()
+			}
+			c08DetachCallbacks(c)
+			rt := *c.runtimeState.Load()
+			rt.bestDialerChooser, rt.timeoutExceedCallback = chooser, nil
+			c.runtimeState.Store(&rt)
+			return c, ""
+		}
+		out := VRecover(func() string {
+			c, e := build()
+			if c == nil {
+				return e
 			}
 			w.c = c
 			return "cfg " + w.cfgObserved()
 		})
 		st.Emit("cfg "+cfg.opStr(), out)
+		if w.c == nil {
+			return
+		}
 		defer func() { _ = w.c.Close() }()
 		stats.Inc("history.request_path")
-		dst := netip.MustParseAddrPort("8.8.8.8:53")
-		nSlots := r.Range(1, 3)
+		stats.Inc("dnscfg.from_text")
+		dsts := []netip.AddrPort{netip.MustParseAddrPort("8.8.8.8:53"), netip.MustParseAddrPort("8.8.8.8:5353"), netip.MustParseAddrPort("[2001:4860:4860::8888]:53")}
+		nSlots := r.Range(2, 3)
 		bases := make([]string, nSlots)
 		for i := range bases {
-			bases[i] = c08BaseNames[r.Intn(len(c08BaseNames))]
+			bases[i] = c08AskNames[r.Intn(len(c08AskNames))]
 		}
+		if r.Bool() {
+			bases[0] = "g.flip.test" // the name whose route changes with every reload of this history
+		}
+		qtypes := []uint16{[]uint16{1, 28, 16}[r.Intn(3)], []uint16{1, 1, 28, 16}[r.Intn(4)]}
 		now := time.Now().UnixNano()
 		var sh []c08Shadow
 		ansCounter := r.Intn(1000)
+		nextID := uint16(2000 + r.Intn(1000))
+		// steering only (never an oracle): is there an expired entry under the key this request will use?
+		expiredEntry := func(name string, qtype uint16, kind, detail string) bool {
+			scope := "asis@" + detail
+			if kind == "up" {
+				scope = "upstream@" + detail
+			}
+			v, ok := w.c.dnsCache.Load(dnsmessage.CanonicalName(name) + fmt.Sprint(qtype) + "|" + scope)
+			return ok && !v.(*DnsCache).Deadline.After(time.Now())
+		}
 		// histories with simultaneous identical requests use replies that have answers: a loser of the
 		// re-pack race answers through the answers-only fallback, indistinguishable only then
 		multi := r.Bool()
+
+		type askReq struct {
+			name          string
+			qtype, qclass uint16
+			dst           netip.AddrPort
+			spec          *c08AskSpec
+			g             int
+			wfail         bool
+			// derived
+			kind, detail, finalUp string
+			hops                  int
+			fail                  bool
+			ids                   []uint16
+			replies               []string
+		}
+		runOne := func(a *askReq, id uint16) string {
+			q := new(dnsmessage.Msg)
+			q.SetQuestion(dnsmessage.Fqdn(a.name), a.qtype)
+			q.Question[0].Name = dnsmessage.Fqdn(a.name) // keep the asker's letter case
+			q.Question[0].Qclass = a.qclass
+			q.Id = id
+			wr := &c08Writer{fail: a.wfail}
+			req := &udpRequest{realSrc: netip.AddrPortFrom(netip.MustParseAddr("192.0.2.10"), id), realDst: a.dst, routingResult: &bpfRoutingResult{}}
+			t0 := time.Now()
+			err := w.c.HandleWithResponseWriter_(context.Background(), q, req, wr)
+			lat := time.Since(t0)
+			if err != nil {
+				return fmt.Sprintf("lat=%d err=1", lat.Nanoseconds())
+			}
+			m := wr.msg
+			if m == nil {
+				return "no-reply"
+			}
+			ansID := "-"
+			if len(m.Answer) > 0 {
+				switch rr := m.Answer[0].(type) {
+				case *dnsmessage.A:
+					ip := rr.A.To4()
+					ansID = fmt.Sprint(int(ip[2])<<8 | int(ip[3]))
+				case *dnsmessage.AAAA:
+					ip := rr.AAAA.To16()
+					ansID = fmt.Sprint(int(ip[14])<<8 | int(ip[15]))
+				}
+			}
+			ttl, first := "-", true
+			for _, sec := range [][]dnsmessage.RR{m.Answer, m.Ns, m.Extra} {
+				for _, rr := range sec {
+					v := fmt.Sprint(rr.Header().Ttl)
+					if first {
+						ttl, first = v, false
+					} else if ttl != v {
+						ttl = "mixed"
+					}
+				}
+			}
+			if m.Authoritative {
+				ttl = "up" // not from the cache: the TTLs are the upstream's business
+			}
+			if m.Id != id {
+				return "reply-id-differs"
+			}
+			if len(m.Question) != 1 || m.Question[0].Qclass != a.qclass || m.Question[0].Qtype != a.qtype {
+				return "reply-question-differs"
+			}
+			return fmt.Sprintf("lat=%d rcode=%d ans=%s n=%d ttl=%s", lat.Nanoseconds(), m.Rcode, ansID, len(m.Answer), ttl)
+		}
+
 		for i := 0; i < nOps; i++ {
 			next := c08NextTime(r, stats, now, cfg, sh)
 			if next-now > 4000*c08Sec {
 				next = now + 4000*c08Sec
 			}
 			now = next
-			if r.Chance(0.08) {
+			x := r.Intn(100)
+			if x < 7 {
 				gone := w.jan(now)
 				stats.Add("janitor.evicted", len(gone))
 				continue
 			}
-			name := c08NameVariant(r, stats, bases[r.Intn(nSlots)])
-			qtype := []uint16{1, 1, 28, 16}[r.Intn(4)]
-			ansCounter++
-			up.rttl = []uint32{0, 0, 1, 2, 5, 16, 17, 30, 60, 300}[r.Intn(10)]
-			up.ans, up.n, up.ns, up.rcode = ansCounter, []int{1, 1, 2, 0}[r.Intn(4)], []int{0, 0, 1, 3}[r.Intn(4)], 0
-			if multi && up.n == 0 {
-				up.n = 1
+			if x < 13 {
+				// reload with an edited dns{} (routing of *.flip.test changes, maybe the cache settings too):
+				// new controller, the clones of the old cache restored into it
+				w.sleepUntil(now)
+				gen = (gen + 1) % 3
+				if r.Chance(0.3) {
+					cfg = c08RandCfg(r, stats)
+					if len(cfg.fixed) > 0 {
+						cfg.fixed = append(cfg.fixed, c08Fixed{name: "b.up1.test", ttl: 7}, c08Fixed{name: "G.Flip.Test.", ttl: 20, lit: "0o24"})
+					}
+				}
+				out := VRecover(func() string {
+					clones := w.c.CloneCacheForReload()
+					nc, e := build()
+					if nc == nil {
+						return e
+					}
+					n := nc.RestoreReloadCache(clones, nil, time.Now())
+					_ = w.c.Close()
+					w.c = nc
+					return fmt.Sprintf("reload %s n=%d", w.cfgObserved(), n)
+				})
+				st.Emit("reload "+cfg.opStr(), out)
+				stats.Inc("ask.reload_with_changed_routing")
+				continue
 			}
-			if r.Chance(0.05) {
-				up.rcode = 3
+			if x < 17 {
+				w.emitKeys()
+				continue
 			}
 			w.sleepUntil(now)
-			c08PickOtherTTL(r, stats)
+			name := c08NameVariant(r, stats, bases[r.Intn(nSlots)])
+			qtype := qtypes[r.Intn(2)]
 			qclass := uint16(dnsmessage.ClassINET)
 			if r.Chance(0.1) {
 				qclass = dnsmessage.ClassCHAOS
 				stats.Inc("ask.class_CH")
 			}
-			g := 1
-			if multi && r.Chance(0.25) {
-				g = r.Range(2, 4) // identical requests at the same instant: singleflight followers
-				stats.Inc("ask.simultaneous_identical_requests")
+			// one request, or a group of simultaneous requests that differ only in the resolver address
+			nReq := 1
+			k0, _, _, _, _ := c08IntendedRoute(name, gen, dsts[0])
+			if k0 == "asisdst" && r.Chance(0.15) {
+				nReq = r.Range(2, 3)
+				stats.Inc("ask.simultaneous_requests_to_different_resolvers")
 			}
-			op := fmt.Sprintf("ask t=%d name=%s qtype=%d dst=%s rttl=%d ans=%d n=%d ns=%d rcode=%d class=%d g=%d ottl=%d", now, c08Hex(name), qtype, c08Hex(dst.String()), up.rttl, up.ans, up.n, up.ns, up.rcode, qclass, g, c08OtherTTL(up.rttl))
-			one := func() string {
-				q := new(dnsmessage.Msg)
-				q.SetQuestion(dnsmessage.Fqdn(name), qtype)
-				q.Question[0].Name = dnsmessage.Fqdn(name) // keep the asker's letter case
-				q.Question[0].Qclass = qclass
-				wr := &c08Writer{}
-				req := &udpRequest{realSrc: netip.MustParseAddrPort("192.0.2.10:41000"), realDst: dst, routingResult: &bpfRoutingResult{}}
-				t0 := time.Now()
-				if err := w.c.HandleWithResponseWriter_(context.Background(), q, req, wr); err != nil {
-					return "err:" + err.Error()
+			perm := []int{0, 1, 2}
+			if nReq > 1 || r.Chance(0.2) { // mostly one resolver address, so that entries are asked for again
+				for j := 2; j > 0; j-- {
+					k := r.Intn(j + 1)
+					perm[j], perm[k] = perm[k], perm[j]
 				}
-				lat := time.Since(t0)
-				m := wr.msg
-				if m == nil {
-					return "no-reply"
+			}
+			var reqs []*askReq
+			maxHops := 1
+			for j := 0; j < nReq; j++ {
+				ansCounter++
+				n := []int{1, 1, 2, 0, 3, 9}[r.Intn(6)]
+				if multi && n == 0 {
+					n = 1
 				}
-				ansID := "-"
-				if len(m.Answer) > 0 {
-					switch a := m.Answer[0].(type) {
-					case *dnsmessage.A:
-						ip := a.A.To4()
-						ansID = fmt.Sprint(int(ip[2])<<8 | int(ip[3]))
-					case *dnsmessage.AAAA:
-						ip := a.AAAA.To16()
-						ansID = fmt.Sprint(int(ip[14])<<8 | int(ip[15]))
-					}
+				base := []uint32{0, 0, 1, 2, 5, 16, 17, 30, 60, 300}[r.Intn(10)]
+				a := &askReq{name: name, qtype: qtype, qclass: qclass, dst: dsts[perm[j]], g: 1,
+					spec: &c08AskSpec{ttls: c08GenTTLs(r, stats, base, n), ans: (ansCounter % 4000) * 16, ns: []int{0, 0, 1, 3}[r.Intn(4)]}}
+				if r.Chance(0.05) {
+					a.spec.rcode = 3
 				}
-				ttl, first := "-", true
-				for _, sec := range [][]dnsmessage.RR{m.Answer, m.Ns, m.Extra} {
-					for _, rr := range sec {
-						v := fmt.Sprint(rr.Header().Ttl)
-						if first {
-							ttl, first = v, false
-						} else if ttl != v {
-							ttl = "mixed"
+				var respReject bool
+				a.kind, a.detail, a.finalUp, a.hops, respReject = c08IntendedRoute(name, gen, a.dst)
+				stats.Inc("ask.route." + map[bool]string{true: "redial_second_upstream", false: a.kind}[a.hops == 2])
+				if respReject {
+					stats.Inc("ask.route.response_routing_drops_answers")
+				}
+				if nReq == 1 && multi && r.Chance(0.25) {
+					a.g = r.Range(2, 4) // identical requests at the same instant: singleflight followers
+					stats.Inc("ask.simultaneous_identical_requests")
+				}
+				pFault := 0.12
+				if a.kind != "reject" && qclass == dnsmessage.ClassINET && expiredEntry(name, qtype, a.kind, a.detail) {
+					pFault = 0.4 // a stale hit is likely: let the refresh it starts meet a fault often
+				}
+				if a.kind != "reject" && r.Chance(pFault) {
+					switch r.Intn(5) {
+					case 0:
+						a.spec.failHop, a.fail = a.hops, true
+						stats.Inc("ask.fault.upstream_exchange_fails")
+					case 1:
+						a.spec.failHop, a.spec.wrongQ, a.fail = a.hops, true, true
+						stats.Inc("ask.fault.upstream_answers_another_question")
+					case 2:
+						a.spec.chooserFail, a.fail, a.hops = true, true, 0
+						stats.Inc("ask.fault.no_dialer")
+					case 3:
+						if a.hops == 2 { // the first exchange fails: the re-dial never happens
+							a.spec.failHop, a.fail, a.hops = 1, true, 1
+							stats.Inc("ask.fault.first_of_two_exchanges_fails")
+						}
+					default:
+						if a.g == 1 {
+							a.wfail = true
+							stats.Inc("ask.fault.client_gone_at_write")
 						}
 					}
 				}
-				if m.Authoritative {
-					ttl = "up" // not from the cache: the TTLs are the upstream's business
+				if a.hops > maxHops {
+					maxHops = a.hops
 				}
-				if len(m.Question) != 1 || m.Question[0].Qclass != qclass || m.Question[0].Qtype != qtype {
-					return "reply-question-differs"
+				for k := 0; k < a.g; k++ {
+					nextID++
+					a.ids = append(a.ids, nextID)
+					anet.script(nextID, a.spec)
 				}
-				return fmt.Sprintf("lat=%d rcode=%d ans=%s n=%d ttl=%s", lat.Nanoseconds(), m.Rcode, ansID, len(m.Answer), ttl)
+				reqs = append(reqs, a)
 			}
+			keysBefore := len(w.keys())
 			res := VRecover(func() string {
-				before := up.calls.Load()
-				replies := make([]string, g)
 				var wg sync.WaitGroup
-				for i := 0; i < g; i++ {
-					wg.Add(1)
-					go func() { defer wg.Done(); replies[i] = VRecover(one) }()
+				for _, a := range reqs {
+					a.replies = make([]string, a.g)
+					for k := 0; k < a.g; k++ {
+						wg.Add(1)
+						go func() { defer wg.Done(); a.replies[k] = VRecover(func() string { return runOne(a, a.ids[k]) }) }()
+					}
 				}
 				wg.Wait()
-				// a refresh started by this request finishes one round trip after it was asked
-				c08SleepUntil(now + c08Sec)
+				// a refresh started by these requests finishes after its upstream exchange(s)
+				c08SleepUntil(now + int64(maxHops)*c08Sec)
 				synctest.Wait()
-				sort.Strings(replies)
-				uniq := replies[:1]
-				for _, x := range replies[1:] {
-					if x != uniq[len(uniq)-1] {
-						uniq = append(uniq, x)
-					}
-				}
-				parts := strings.SplitN(strings.Join(uniq, " | "), " ", 2)
-				return fmt.Sprintf("ask %s fw=%d %s", parts[0], up.calls.Load()-before, parts[1])
+				return ""
 			})
-			now += c08Sec
-			st.Emit(op, res)
-			stats.Inc("op.ask")
-			if strings.Contains(res, "lat=0 ") {
-				stats.Inc("ask.answered_from_cache_at_once")
-				if strings.Contains(res, "fw=1") {
-					stats.Inc("ask.stale_hit_started_refresh")
+			for _, a := range reqs {
+				line := res
+				if line == "" {
+					sort.Strings(a.replies)
+					uniq := a.replies[:1]
+					for _, x := range a.replies[1:] {
+						if x != uniq[len(uniq)-1] {
+							uniq = append(uniq, x)
+						}
+					}
+					parts := strings.SplitN(strings.Join(uniq, " | "), " ", 2)
+					line = fmt.Sprintf("ask %s fw=%d %s", parts[0], anet.callsOf(a.ids), parts[1])
 				}
-			} else {
-				stats.Inc("ask.forwarded")
-			}
-			eff := int64(up.rttl)
-			if up.n == 0 {
-				eff = 120
-			}
-			if f, ok := cfg.fixedFor(name); ok {
-				eff = int64(f)
-			}
-			key := w.c.responseCacheKey(w.c.cacheKey(name, qtype), &udpRequest{realDst: dst}, consts.DnsRequestOutboundIndex_AsIs, nil)
-			found := false
-			for j := range sh {
-				if sh[j].key == key {
-					found = true
-					if strings.Contains(res, "fw=1") {
-						sh[j] = c08Shadow{key: key, ins: now, deadline: now + eff*c08Sec, pttl: max(eff, 0)}
+				ttls := a.spec.ttls
+				_, _, _, _, respReject := c08IntendedRoute(a.name, gen, a.dst)
+				if respReject {
+					ttls = nil // response routing rejects: the answer section is dropped before the reply is cached
+				}
+				ans := a.spec.ans + c08UpNo[a.finalUp]
+				detail := a.detail
+				if a.kind != "idx" {
+					detail = c08Hex(a.detail)
+				}
+				op := fmt.Sprintf("ask t=%d name=%s qtype=%d route=%s detail=%s ttls=%s ans=%d ns=%d rcode=%d class=%d g=%d fail=%s hops=%d wfail=%s",
+					now, c08Hex(a.name), a.qtype, a.kind, detail, c08TTLsStr(ttls), ans, a.spec.ns, a.spec.rcode, a.qclass, a.g, c08B(a.fail), a.hops, c08B(a.wfail))
+				st.Emit(op, line)
+				stats.Inc("op.ask")
+				switch {
+				case a.kind == "reject":
+					stats.Inc("ask.rejected")
+				case strings.Contains(line, "lat=0 ") && !strings.Contains(line, "err=1"):
+					stats.Inc("ask.answered_from_cache_at_once")
+					if !strings.Contains(line, "fw=0") {
+						stats.Inc("ask.stale_hit_started_refresh")
+						if a.fail {
+							stats.Inc("ask.refresh_failed")
+						}
+					}
+				default:
+					stats.Inc("ask.forwarded")
+					if a.fail {
+						stats.Inc("ask.forward_failed")
 					}
 				}
+				eff := int64(0)
+				if len(ttls) == 0 {
+					eff = 120
+				} else {
+					eff = int64(ttls[0])
+					for _, x := range ttls {
+						eff = min(eff, int64(x))
+					}
+				}
+				if f, ok := cfg.fixedFor(a.name); ok {
+					eff = int64(f)
+				}
+				if a.kind == "reject" || a.fail {
+					continue
+				}
+				key := a.name + "/" + fmt.Sprint(a.qtype) + "/" + a.detail
+				at := now + int64(a.hops)*c08Sec
+				found := false
+				for j := range sh {
+					if sh[j].key == key {
+						found = true
+						if !strings.Contains(line, "fw=0") {
+							sh[j] = c08Shadow{key: key, ins: at, deadline: at + eff*c08Sec, pttl: max(eff, 0)}
+						}
+					}
+				}
+				if !found {
+					sh = append(sh, c08Shadow{key: key, ins: at, deadline: at + eff*c08Sec, pttl: max(eff, 0)})
+				}
 			}
-			if !found {
-				sh = append(sh, c08Shadow{key: key, ins: now, deadline: now + eff*c08Sec, pttl: max(eff, 0)})
+			if reqs[0].kind == "reject" {
+				if d := keysBefore - len(w.keys()); d > 0 {
+					stats.Add("ask.reject_purged_entries", d)
+				}
 			}
+			now += int64(maxHops) * c08Sec
 		}
 		w.emitKeys()
 	})
@@ -1658,7 +2232,7 @@ func c08BigLRU(t *testing.T, st *VStream, stats *VStats, log *logrus.Logger, n, 
 			for i := 0; i < n; i++ {
 				name := fmt.Sprintf("n%d.big.test", i)
 				key := w.c.cacheKey(name, 1)
-				answers, _, _ := c08Records(c08Fqdn(name), 1, 77, i%60000, 1, 0)
+				answers, _, _ := c08Records(c08Fqdn(name), 1, c08Same(1, 77), i%60000, 0)
 				if err := w.c.UpdateDnsCacheTtlWithKey(key, name, 1, answers, nil, nil, 100000); err != nil {
 					return "err:" + err.Error()
 				}
@@ -1792,7 +2366,7 @@ func TestVerifC08(t *testing.T) {
 	// the real janitor goroutine must not fire on its own: the histories decide when it runs
 	dnsCacheJanitorInterval = 24 * 365 * 50 * time.Hour
 
-	nAsk := VEnvInt("C08_ASK", 60)
+	nAsk := VEnvInt("C08_ASK", 80)
 	if VThorough() {
 		nAsk = VEnvInt("C08_ASK", 1500)
 	}
@@ -1812,6 +2386,8 @@ func TestVerifC08(t *testing.T) {
 	c08BigLRU(t, st, stats, log, 9000, 4000)
 	c08Findings(t, st, stats, log)
 	c08RaceStream(t, st, stats, log, nRace)
+	c08EvictHammer(st, stats, log, nRace*40)
+	c08TornPairProbe(st, stats, nRace*10)
 	for i := 0; i < nHist; i++ {
 		n := nOps
 		if i%10 == 0 {
